@@ -34,7 +34,7 @@ func init() {
 			"sources change only through RegisterString together with the loader entry, so every path agrees on the current source (C15 owns cache/loader policy)",
 			"pool scan runs single-goroutine with GOMAXPROCS(1) so that sync.Pool per-P slots are drained completely",
 		},
-		quick: 320, thorough: 6000, minQuick: 150, minThorough: 2500,
+		quick: 800, thorough: 12000, minQuick: 400, minThorough: 5000,
 	}}
 	Register(p)
 	oneshots["C01"] = p.oneshot
